@@ -175,6 +175,8 @@ def mk_gate(spec):
     from .core import Some
     qs, k = spec
     qs = [int(q) for q in qs]
+    if (sum(qs) + len(qs)) % 2 == 1:
+        qs = [np.int64(q) for q in qs]        # qubit labels arrive as numpy integers as often as Python ints (numpy.arange in the library's own callers)
     if k[0] == 0:
         g = CI.CliffordGate(*qs)
         g.generator = P(k[1])
